@@ -8,6 +8,7 @@ tree: `Gen.journalPairs` (encodeJournalName), `Gen.jobJournalRe`,
 import Martian.ForkName
 import Proofs.ForkName
 import Proofs.ForkNameInj
+import Proofs.ForkNameDiv
 import Proofs.ForkRoute
 import Gen.Facts
 
@@ -171,6 +172,41 @@ theorem forkName_injective (a b : List Part) (hs : sameShape a b = true)
         = forkIdString Gen.forkIdReenters Gen.forkIdSkipsEmpty b) : a = b := by
   rw [forkId_reenters_at_map_part, forkId_skips_empty_parts] at h
   exact forkIdString_inj a b hs hva hvb h1 h1' h
+
+/-- **Forks of one call never share a name, also when their ids have different
+shapes.**  Under a run-time sized call the inner parts of two forks may differ
+in length, key set or emptiness from one outer fork to the next, so the forks
+of a node are not all of the same shape.  But any two of them agree on a
+(possibly empty) prefix `p` of parts and then name a different index of the
+same array call or a different key of the same map call (`diverge x y`).  Then
+their id strings differ, whatever parts `ra`, `rb` follow on either side
+(resolved parts in range, parts found empty, unresolved parts; the two tails
+need not have the same shape, only the same number of parts). -/
+theorem forkName_distinct_after_divergence (p : List Part) (x y : Part) (ra rb : List Part)
+    (hd : diverge x y = true) (hp : p.all partOk = true) (hra : ra.all partOk = true) (hrb : rb.all partOk = true)
+    (hlen : ra.length = rb.length) :
+    forkIdString Gen.forkIdReenters Gen.forkIdSkipsEmpty (p ++ x :: ra)
+      ≠ forkIdString Gen.forkIdReenters Gen.forkIdSkipsEmpty (p ++ y :: rb) := by
+  rw [forkId_reenters_at_map_part, forkId_skips_empty_parts]
+  exact forkIdString_diverge p x y ra rb hd hp hra hrb hlen
+
+/-- … and so do their journal names. -/
+theorem forkJournalName_distinct_after_divergence (p : List Part) (x y : Part) (ra rb : List Part) (ia ib : Bytes)
+    (hd : diverge x y = true) (hp : p.all partOk = true) (hra : ra.all partOk = true) (hrb : rb.all partOk = true)
+    (hlen : ra.length = rb.length)
+    (ha : forkIdString Gen.forkIdReenters Gen.forkIdSkipsEmpty (p ++ x :: ra) = some ia)
+    (hb : forkIdString Gen.forkIdReenters Gen.forkIdSkipsEmpty (p ++ y :: rb) = some ib) :
+    journalEnc Gen.journalPairs ia ≠ journalEnc Gen.journalPairs ib := by
+  intro h
+  have := journal_name_injective ia ib h
+  exact forkName_distinct_after_divergence p x y ra rb hd hp hra hrb hlen (by rw [ha, hb, this])
+
+-- under outer fork 0 the inner run-time source is empty, under outer fork 1 it has 3 elements and a map call follows
+example :
+    let ks : List Bytes := [[0x61], [0x62]]
+    diverge (.arr 0 2 true) (.arr 1 2 true) = true ∧
+    ([.empty, .undet] : List Part).all partOk = true ∧
+    ([.arr 2 3 false, .key [0x62] ks false] : List Part).all partOk = true := by decide
 
 /-- Skipped parts contribute nothing: an unresolved outer part, an outer part
 found empty, and an outer array part of length 0 give the inner forks the same
